@@ -1054,6 +1054,8 @@ sf_command	(SNDFILE *sndfile, int command, void *data, int datasize)
 	if (sndfile == NULL && command == SFC_GET_LOG_INFO)
 	{	if (data == NULL)
 			return (sf_errno = SFE_BAD_COMMAND_PARAM) ;
+		if (datasize <= 0)
+			return 0 ;
 		snprintf (data, datasize, "%s", sf_parselog) ;
 		return strlen (data) ;
 		} ;
